@@ -83,6 +83,7 @@ func (writer *SSTableStreamWriter) Open() error {
 		writer.bloomFilter = bf
 	}
 
+	verifWriterOpened(writer)
 	return nil
 }
 
